@@ -33,12 +33,13 @@ class EnsembleAdapter:
         self.ml, self.Molecule, self.CE, self.Atom, self.mio, self.msgpack = ml, Molecule, ConformerEnsemble, Atom, mio, msgpack
         self.cunit = cunit
         self.e = None
+        self.src = None                       # the ensemble self.e was copy-constructed from (kept alive, observed)
         self.its = {}
         self.views = {}
         self.rnd = random.Random(seed)
 
     def cleanup(self):
-        self.e, self.its, self.views = None, {}, {}
+        self.e, self.src, self.its, self.views = None, None, {}, {}
 
     # ---- abstraction -------------------------------------------------------------------------
     def cf(self, rows):                       # spec coordinates -> float array (Angstrom)
@@ -141,6 +142,8 @@ class EnsembleAdapter:
 
     def _apply(self, act):
         a, e = act["act"], self.e
+        if a in ("newatoms", "newmol", "newlist"):
+            self.src = None
         if a == "newatoms":
             self._drop()
             k, n = int(act["k"]), len(act["C"])
@@ -153,7 +156,7 @@ class EnsembleAdapter:
             self.e = self.CE([self.mol(m) for m in act["ms"]])
         elif a == "newcopy":
             self._drop()
-            self.e = self.CE(e)
+            self.src, self.e = e, self.CE(e)
         elif a == "append":
             self._drop()
             e.append(self.mol(act["m"]))
@@ -173,6 +176,20 @@ class EnsembleAdapter:
             e.rotate(np.array(act["R"], dtype=float))
         elif a == "center":
             e.center_at_atom(e.atoms[int(act["a"]) - 1])
+        elif a == "rotstack":
+            e.rotate(np.array(act["Rs"], dtype=float))
+        elif a == "trstack":
+            e.translate(self.cf(act["vs"]))
+        elif a == "swc":
+            self.src[int(act["i"]) - 1].coords = self.cf(act["row"])
+        elif a == "swq":
+            self.src[int(act["i"]) - 1].atomic_charges = self.qf(act["row"])
+        elif a == "ssw":
+            w = np.array(self.src.weights, dtype=float)
+            w[int(act["i"]) - 1] = act["w"] / 1e3
+            self.src.weights = w                       # the whole-array setter of the source
+        elif a == "str":
+            self.src.translate(self.cf(act["v"]))
         elif a == "vwc":
             self.view(act["i"], self.rnd.random() < 0.5).coords = self.cf(act["row"])
         elif a == "vwq":
@@ -218,11 +235,18 @@ class EnsembleAdapter:
             qq = []
         return {"c": cc, "q": qq}
 
+    def _src(self):
+        s = self.src
+        if s is None:
+            return {"made": False, "C": [], "Q": [], "W": []}
+        return {"made": True, "C": self.ci(s.coords), "Q": self.qi(s.atomic_charges), "W": self.qi(s.weights)}
+
     # ---- observation ---------------------------------------------------------------------------
     def observe(self):
         e = self.e
         if e is None:
-            return {"made": False, "na": 0, "nb": 0, "shC": [0, 0, 3], "shQ": [0, 0], "shW": [0], "C": [], "Q": [], "W": [], "v": []}
+            return {"made": False, "na": 0, "nb": 0, "shC": [0, 0, 3], "shQ": [0, 0], "shW": [0], "C": [], "Q": [], "W": [],
+                    "src": {"made": False, "C": [], "Q": [], "W": []}, "v": []}
         v = []
         for i in range(1, e.n_conformers + 1):
             held, fresh = self.view(i), e[i - 1]
@@ -237,7 +261,7 @@ class EnsembleAdapter:
         return {"made": True, "na": int(e.n_atoms), "nb": int(e.n_bonds),
                 "shC": [int(x) for x in e.coords.shape], "shQ": [int(x) for x in e.atomic_charges.shape],
                 "shW": [int(x) for x in e.weights.shape],
-                "C": self.ci(e.coords), "Q": self.qi(e.atomic_charges), "W": self.qi(e.weights), "v": v}
+                "C": self.ci(e.coords), "Q": self.qi(e.atomic_charges), "W": self.qi(e.weights), "src": self._src(), "v": v}
 
 
 # ------------------------------------------------------------------------------------------------
@@ -310,7 +334,8 @@ class History:
         n, na = int(e.coords.shape[0]), int(e.n_atoms)
         can_grow = n < self.max_conf + 3
         ops = ["append"] * 2 + ["extlist", "extens", "extself", "newcopy", "dump", "dump", "ser", "slice", "start", "start",
-                                "scale", "invert", "translate", "rotate", "center"] + ["next"] * (6 if self.ad.its else 0)
+                                "scale", "invert", "translate", "rotate", "center", "rotstack", "rotstack", "trstack"] \
+            + ["next"] * (6 if self.ad.its else 0) + (["swc", "swq", "ssw", "str"] * 2 if self.ad.src is not None else [])
         if n:
             ops += ["vwc", "vwq", "vsa", "vtr", "setw", "cdump", "cser"] * 2
         op = r.choice(ops)
@@ -355,6 +380,28 @@ class History:
             self.do({"act": "rotate", "R": r.choice(ROTS)})
         elif op == "center" and na and self.maxabs() < LIMIT // 2:
             self.do({"act": "center", "a": r.randint(1, na)})
+        elif op in ("rotstack", "trstack") and n and self.maxabs() < LIMIT // 2:
+            # one matrix / vector per conformer, or (one time in four) a stack of another length >= 2
+            k = n if r.random() < 0.75 else r.choice([x for x in (2, 3, 4, n + 1) if x != n])
+            if k == 1 and n != 1:
+                return
+            if op == "rotstack":
+                self.do({"act": "rotstack", "Rs": [r.choice(ROTS) for _ in range(k)]})
+            else:
+                self.do({"act": "trstack", "vs": [self.coord() for _ in range(k)]})
+        elif op in ("swc", "swq", "ssw", "str") and self.ad.src is not None:
+            sn = int(self.ad.src.coords.shape[0])
+            if op == "str":
+                if self.maxabs() < LIMIT // 2 and float(np.nanmax(np.abs(self.ad.src.coords), initial=0)) * 1e6 < LIMIT // 2:
+                    self.do({"act": "str", "v": self.coord()})
+            elif sn:
+                i = r.randint(1, sn)
+                if op == "swc":
+                    self.do({"act": "swc", "i": i, "row": self.rmol(na)["g"]})
+                elif op == "swq":
+                    self.do({"act": "swq", "i": i, "row": self.rmol(na)["q"]})
+                else:
+                    self.do({"act": "ssw", "i": i, "w": r.randint(1, 4000)})
         elif op == "vwc":
             self.do({"act": "vwc", "i": r.randint(1, n), "row": self.rmol(na)["g"]})
         elif op == "vwq":
